@@ -17,6 +17,7 @@ import (
 	v2 "github.com/hydraide/hydraide/app/core/hydra/swamp/chronicler/v2"
 	"github.com/hydraide/hydraide/app/core/hydra/swamp/treasure"
 	"github.com/hydraide/hydraide/app/core/hydra/swamp/treasure/guard"
+	"github.com/hydraide/hydraide/app/verifhook"
 )
 
 const (
@@ -394,6 +395,7 @@ func (c *chroniclerV2) Load(indexObj beacon.Beacon) {
 // while the swamp is active. The writer is lazily initialized on first
 // write and closed only when Close() is called on the chronicler.
 func (c *chroniclerV2) Write(treasures []treasure.Treasure) {
+	verifhook.Point("chronicler.write.begin", int64(len(treasures)))
 	c.mu.Lock()
 	defer c.mu.Unlock()
 
